@@ -61,6 +61,9 @@ static uint32_t vf_loc_find(char* p) {
   return vf_loc_n++;
 }
 
+/* pre-registration from the sequential prologue keeps the table and its size concrete */
+void vf_hb_register(char* p) { (void)vf_loc_find(p); }
+
 #ifdef VF_HB
 void vf_hb_load(char* p, int o) {
   vf_hb_init();
